@@ -635,6 +635,7 @@ class Evaluator:
         self._const_busy: set = set()
         self._fn_by_key: Dict[str, FunctionInfo] = {f.key: f for f in model.all_functions()}
         self.unresolved_calls: List[str] = []
+        self.assert_depth: Dict[Tuple[str, Term], List[int]] = {}
         self.resolved_calls = 0
         self._stack: List[str] = []
         self.steps = 0
@@ -1015,6 +1016,9 @@ class Evaluator:
                 return []
             if tv is None:
                 st.asserts = st.asserts + (test,)
+                # how many path conditions had been taken when the assertion was reached (lets a rule tell a
+                # precondition stated up front from a conclusion drawn after tests)
+                self.assert_depth.setdefault((fi.key if fi is not None else '', test), []).append(len(st.guards))
             return [st]
         if isinstance(s, (ast.Pass, ast.Import, ast.ImportFrom, ast.Global, ast.Nonlocal)):
             return [st]
